@@ -170,8 +170,29 @@ class C(VPCheck):
             e = c07.template(rng)
         else:
             e = gen.rand_arith(rng, rng.choice((2, 3, 3)), unary=UN, p_unary=0.3, floats=False)
+        realpts = False
+        if rng.random() < 0.2:
+            # multi-argument nodes (rebuilt argument by argument): Max/Min (real points), LeviCivita-free two-argument functions, f(x, y, z)
+            args = [gen.rand_arith(rng, 1, unary=('sin', 'exp'), p_unary=0.2, complex_=False, consts=False) for _ in range(rng.choice((2, 3, 4)))]
+            args[rng.randrange(len(args))] = rng.choice((X, Y, Z))
+            k = rng.random()
+            if k < 0.45:
+                e = (rng.choice(('max', 'min')),) + tuple(args)
+                realpts = True
+            elif k < 0.7:
+                e = ('func', rng.choice(('f', 'g', 'h'))) + tuple(args)
+            elif k < 0.85:
+                # small orders only: incomplete gamma of a large integer order expands recursively into that many nested terms
+                e = (rng.choice(('beta', 'lowergamma', 'uppergamma')), rng.choice((I(2), I(3), FR(Fraction(3, 2)), X, Y)), args[1])
+            else:
+                e = ('atan2', args[0], args[1])
+                realpts = True
+            if rng.random() < 0.4:
+                e = (rng.choice(('add', 'mul')), e, rng.choice((X, Y, I(2))))
         api = rng.choice(APIS)
         mode = rng.random()
+        if realpts:
+            mode = rng.choice((0.1, 0.4, 0.5, 0.9, 0.97))      # number values must stay real for max/min: use symbol/expression maps mostly
         pairs = []
         post_t = None
         noop = False
@@ -197,7 +218,12 @@ class C(VPCheck):
         else:
             pairs = [(S(s), S(s)) for s in rng.sample(['x', 'y', 'z'], rng.choice((1, 2, 3)))]
             noop = True
-        return self.make(e, api, pairs, post_t, noop, cid)
+        it = self.make(e, api, pairs, post_t, noop, cid)
+        if realpts:
+            if any(v[0] == 'cpx' or v == K('I') for _, v in pairs):
+                return None
+            it['kind'] = 'real'
+        return it
 
     def make(self, e, api, pairs, post_t, noop, cid):
         plist = tuple((k, v) for k, v in pairs)
@@ -264,7 +290,7 @@ class C(VPCheck):
         k['api'] = it['label']
         k['map'] = 'subexpr' if it.get('post') else ('sym')
         kr = it.get('keyrecipe')
-        if kr is not None and kr[0] in ('pow', 'sqrt', 'cbrt') and _has_fractional_power_of(it.get('_rawtree'), 't0'):
+        if kr is not None and _has_fractional_power_of(it.get('_rawtree'), 't0'):     # the key was (or evaluated to) a power b**p
             k['family'] = 'power-key-noninteger-ratio'
             k.pop('shape', None)
         return k
